@@ -42,6 +42,7 @@ import (
 	"github.com/tink-crypto/tink-go/v2/signature/rsassapkcs1"
 	"github.com/tink-crypto/tink-go/v2/signature/rsassapss"
 	sigsubtle "github.com/tink-crypto/tink-go/v2/signature/subtle"
+	"github.com/tink-crypto/tink-go/v2/testing/verifhooks"
 	"github.com/tink-crypto/tink-go/v2/tink"
 )
 
@@ -67,14 +68,19 @@ type cfg struct {
 	SaltLen int
 	Variant string // TINK CRUNCHY LEGACY NO_PREFIX
 	ID      uint32
-	Route   string // factory | subtle
+	// factory: signature.NewSigner/NewVerifier(handle); key: the per-key constructors (testing/verifhooks, they take an
+	// internalapi.Token); subtle: signature/subtle (ECDSA, Ed25519; no prefix); internal: internal/signature RSA primitives (no prefix)
+	Route string
 }
 
 var variants = []string{"TINK", "CRUNCHY", "LEGACY", "NO_PREFIX"}
 var ids = []uint32{0, 0xffffffff, 1, 0x01020304, 0x7fffffff, 0x80000000}
 
+// raw routes have no output prefix and no LEGACY suffix whatever the variant field says.
+func (c cfg) raw() bool { return c.Route == "subtle" || c.Route == "internal" }
+
 func (c cfg) prefix() []byte {
-	if c.Route == "subtle" || c.Variant == "NO_PREFIX" {
+	if c.raw() || c.Variant == "NO_PREFIX" {
 		return nil
 	}
 	b := []byte{0, byte(c.ID >> 24), byte(c.ID >> 16), byte(c.ID >> 8), byte(c.ID)}
@@ -89,7 +95,7 @@ func (c cfg) isRSA() bool { return c.Alg == "RSA_PKCS1" || c.Alg == "RSA_PSS" }
 // ev is the event skeleton: the abstract configuration as the trace spec reads it.
 func (c cfg) ev(name string) vt.Ev {
 	v, id := c.Variant, vt.ID4(c.ID)
-	if c.Route == "subtle" || v == "NO_PREFIX" {
+	if c.raw() || v == "NO_PREFIX" {
 		v, id = "NO_PREFIX", "00000000"
 	}
 	mgf := ""
@@ -231,9 +237,22 @@ func newVerifier(c cfg, pub []byte) (tink.Verifier, error) {
 		}
 		return nil, fmt.Errorf("no subtle route for %s", c.Alg)
 	}
+	if c.Route == "internal" {
+		rp := &rsa.PublicKey{N: new(big.Int).SetBytes(pub), E: 65537}
+		switch c.Alg {
+		case "RSA_PKCS1":
+			return verifhooks.SigRSAPKCS1Verifier(c.Hash, rp)
+		case "RSA_PSS":
+			return verifhooks.SigRSAPSSVerifier(c.Hash, c.SaltLen, rp)
+		}
+		return nil, fmt.Errorf("no internal route for %s", c.Alg)
+	}
 	k, err := pubKeyObj(c, pub)
 	if err != nil {
 		return nil, err
+	}
+	if c.Route == "key" {
+		return verifhooks.SigNewVerifier(k)
 	}
 	h, err := handleOf(k)
 	if err != nil {
@@ -252,9 +271,24 @@ func newSigner(c cfg, km *keyMat) (tink.Signer, error) {
 		}
 		return nil, fmt.Errorf("no subtle route for %s", c.Alg)
 	}
+	if c.Route == "internal" {
+		b := func(h string) *big.Int { return new(big.Int).SetBytes(vt.Unhex(h)) }
+		rk := &rsa.PrivateKey{PublicKey: rsa.PublicKey{N: b(km.Pub), E: 65537}, D: b(km.D), Primes: []*big.Int{b(km.P), b(km.Q)}}
+		rk.Precompute()
+		switch c.Alg {
+		case "RSA_PKCS1":
+			return verifhooks.SigRSAPKCS1Signer(c.Hash, rk)
+		case "RSA_PSS":
+			return verifhooks.SigRSAPSSSigner(c.Hash, c.SaltLen, rk)
+		}
+		return nil, fmt.Errorf("no internal route for %s", c.Alg)
+	}
 	k, err := privKeyObj(c, km)
 	if err != nil {
 		return nil, err
+	}
+	if c.Route == "key" {
+		return verifhooks.SigNewSigner(k)
 	}
 	h, err := handleOf(k)
 	if err != nil {
@@ -539,7 +573,7 @@ func mutations(c cfg, pub []byte, sig, msg []byte, r *rand.Rand, full, allBits b
 		add("pfx-missing", raw, msg)
 		add("pfx-twice", cat(pre, sig), msg)
 		add("pfx-only", pre, msg)
-	} else if c.Route != "subtle" {
+	} else if !c.raw() {
 		add("pfx-added-tink", cat([]byte{1, 0, 0, 0, 0}, sig), msg)
 		add("pfx-added-legacy", cat([]byte{0, 0, 0, 0, 0}, sig), msg)
 	}
@@ -944,7 +978,7 @@ func buildPlan(keys []keyMat, full bool) *plan {
 		}
 		m := vt.Bytes(r, 1+r.Intn(40))
 		// ... and ones that deviate from the key's parameters in exactly one respect
-		if c.Route != "subtle" {
+		if !c.raw() {
 			for _, v := range variants { // signed for another variant (prefix and LEGACY suffix differ)
 				if v != c.Variant {
 					u.refs = append(u.refs, refCase{p.req(c, km, "std", m, vt.Bytes(r, c.SaltLen), func(q *request) {
@@ -1035,7 +1069,10 @@ func buildPlan(keys []keyMat, full bool) *plan {
 
 	ui := 0
 	nextID := func() uint32 { ui++; return ids[(ui+int(vt.Seed()))%len(ids)] }
-	// ---- ECDSA: every curve/hash pair x encoding x variant (factory), plus the subtle constructors
+	// keyset-level routes alternate between the keyset factory and the per-key constructor
+	rc := 0
+	ksRoute := func() string { rc++; return []string{"factory", "key"}[(rc+int(vt.Seed()))%2] }
+	// ---- ECDSA: every curve/hash pair x encoding x variant (factory or per-key constructor), plus the subtle constructors
 	for _, ch := range [][2]string{{"P256", "SHA256"}, {"P384", "SHA384"}, {"P384", "SHA512"}, {"P521", "SHA512"}} {
 		ks := keysOfKind(keys, "EC", ch[0], 0)
 		for _, enc := range []string{"DER", "IEEE_P1363"} {
@@ -1049,7 +1086,7 @@ func buildPlan(keys []keyMat, full bool) *plan {
 				}
 				for j := 0; j < reps; j++ {
 					i := (vi + j + ui) % len(ks)
-					addUnit(cfg{"ECDSA", ch[0], ch[1], enc, 0, v, nextID(), "factory"}, ks[i], pickOther(ks, i))
+					addUnit(cfg{"ECDSA", ch[0], ch[1], enc, 0, v, nextID(), ksRoute()}, ks[i], pickOther(ks, i))
 				}
 			}
 			i := ui % len(ks)
@@ -1064,7 +1101,7 @@ func buildPlan(keys []keyMat, full bool) *plan {
 				break
 			}
 			i := (vi + j) % len(ks)
-			addUnit(cfg{"ED25519", "", "", "", 0, v, nextID(), "factory"}, ks[i], pickOther(ks, i))
+			addUnit(cfg{"ED25519", "", "", "", 0, v, nextID(), ksRoute()}, ks[i], pickOther(ks, i))
 		}
 	}
 	addUnit(cfg{"ED25519", "", "", "", 0, "NO_PREFIX", 0, "subtle"}, ks[0], pickOther(ks, 0))
@@ -1080,8 +1117,20 @@ func buildPlan(keys []keyMat, full bool) *plan {
 					continue
 				}
 				i := j % len(ks)
-				addUnit(cfg{"RSA_PKCS1", "", h, "", 0, v, nextID(), "factory"}, ks[i], pickOther(ks, i))
+				rts := []string{ksRoute()}
+				if full {
+					rts = []string{"factory", "key"}
+				}
+				for _, rt := range rts {
+					addUnit(cfg{"RSA_PKCS1", "", h, "", 0, v, nextID(), rt}, ks[i], pickOther(ks, i))
+				}
 				j++
+			}
+			// the raw primitives of internal/signature (no prefix, no LEGACY suffix)
+			addUnit(cfg{"RSA_PKCS1", "", h, "", 0, "NO_PREFIX", 0, "internal"}, ks[j%len(ks)], pickOther(ks, j%len(ks)))
+			addUnit(cfg{"RSA_PSS", "", h, "", hashLen(h), "NO_PREFIX", 0, "internal"}, ks[j%len(ks)], pickOther(ks, j%len(ks)))
+			if full {
+				addUnit(cfg{"RSA_PSS", "", h, "", 20, "NO_PREFIX", 0, "internal"}, ks[(j+1)%len(ks)], pickOther(ks, (j+1)%len(ks)))
 			}
 			maxSalt := (bits-1+7)/8 - hashLen(h) - 2
 			salts := []int{0, 1, 20, hashLen(h), 32, 64, maxSalt - 1, maxSalt}
@@ -1099,7 +1148,7 @@ func buildPlan(keys []keyMat, full bool) *plan {
 				}
 				for _, v := range vs {
 					i := j % len(ks)
-					addUnit(cfg{"RSA_PSS", "", h, "", sl, v, nextID(), "factory"}, ks[i], pickOther(ks, i))
+					addUnit(cfg{"RSA_PSS", "", h, "", sl, v, nextID(), ksRoute()}, ks[i], pickOther(ks, i))
 					j++
 				}
 			}
@@ -1129,7 +1178,7 @@ func sortedKeys(m map[string][]byte) []string {
 }
 
 func legacyMsg(c cfg, m []byte) []byte {
-	if c.Variant == "LEGACY" && c.Route != "subtle" {
+	if c.Variant == "LEGACY" && !c.raw() {
 		return cat(m, []byte{0})
 	}
 	return m
@@ -1364,9 +1413,9 @@ func runWycheproof(dir string, w *vt.Writer, full bool) {
 		return f.TestGroups
 	}
 	feed := func(name string, c cfg, pub []byte, g group) {
-		routes := []string{"factory"}
+		routes := []string{"factory", "key", "internal"}
 		if c.Alg == "ECDSA" || c.Alg == "ED25519" {
-			routes = append(routes, "subtle")
+			routes = []string{"factory", "key", "subtle"}
 		}
 		for _, rt := range routes {
 			c.Route = rt
